@@ -210,16 +210,19 @@ func Table() map[string]*Property {
 		}
 		return false
 	}
-	c01 := []string{"clone.gen.genFuncFor", "deepcopy.gen.genFunc", "deepcopy.gen.genField", "dup.gen.Generate", "pipeline.gen.Generate",
+	// the inner emitting functions (their contracts carry wider domains than the Generate dispatch explores: e.g. three channels for join)
+	inner := []string{"clone.gen.genFuncFor", "deepcopy.gen.genFunc", "deepcopy.gen.genField", "dup.gen.Generate", "pipeline.gen.Generate",
 		"fmap.gen.genChan", "join.gen.genChan", "join.gen.genChanVariant", "join.gen.genSliceOfChan",
 		"fmap.gen.genSlice", "fmap.gen.genString", "fmap.gen.genError", "join.gen.genSlice", "join.gen.genString", "join.gen.genError",
 		"equal.gen.genFunc", "equal.gen.genCurriedFunc", "compare.gen.genFunc", "compare.gen.genCurriedFunc", "hash.gen.genFunc",
 		"tuple.gen.genFuncFor", "traverse.gen.genSlice", "mem.gen.genFunc"}
+	c01 := append([]string{}, inner...)
 	for _, f := range c09 {
 		if !strings.HasSuffix(f, ".Add") {
 			c01 = append(c01, f)
 		}
 	}
+	c09 = append(c09, inner...)
 	add(&Property{
 		ID: "C01",
 		Groups: []Group{
